@@ -194,6 +194,22 @@ def c11_5(ctx):
                         % norm(e.value)[:60])
             else:
                 ctx.undecided("accepted-only-after-case-test", ctx.where(bd, e.node), "bech32_decode accepts under `%s`, which does not show the case test" % str(e.cond)[:100])
+    # (d') the printable-range test looks at the text AS GIVEN, all of it: str.lower() / str.upper() fold some non-ASCII letters
+    #      onto ASCII ones (U+212A KELVIN SIGN -> 'k', U+0130 -> 'i' + U+0307, U+017F -> 'S'), so a range test made after the
+    #      folding, or of one half only, lets an out-of-alphabet string through as the valid one it folds to
+    rng = sorted(a for a in sym.all_atoms(wb) if isinstance(a, str) and a.startswith(("any{", "all{")) and "ord(" in a and " in " in a)
+    if not rng or not acc:
+        ctx.undecided("range-test-of-the-text-as-given", ctx.where(bd), "bech32_decode: no any/all test of ord(character) found among its conditions")
+    else:
+        raw = [a for a in rng if a.rsplit(" in ", 1)[1] == bp + "}"]
+        for e in acc:
+            if raw and any(sym.entails(e.cond, gi.f_not(("op", a))) or sym.entails(e.cond, ("op", a)) for a in raw):
+                ctx.ok("range-test-of-the-text-as-given", sample={"test": raw[0][:70]})
+            else:
+                others = [a.rsplit(" in ", 1)[1][:-1] for a in rng if a not in raw]
+                ctx.bad("range-test-of-the-text-as-given", ctx.where(bd, e.node), "bech32_decode accepts without having range-tested every character of `%s` as given; the range test it makes is of `%s`: "
+                        "case mapping folds non-ASCII letters (U+212A KELVIN SIGN -> k) onto data characters, so a string outside the alphabet decodes as the valid string it folds to" % (bp, (others or ["?"])[0][:60]),
+                        sample={"tested": (others or ["?"])[0][:60]})
     # (g) a base-256 form built with int.to_bytes has NO byte for the value zero (the leading-zero prefix carries all of an
     #     all-zero payload): a size forced to at least one byte gives `1` * n one byte too many
     for nm in ("a2b_base58", "b2a_base58"):
